@@ -1,12 +1,7 @@
 SPECIFICATION RSpec
 CONSTANTS
-  Focus = "decl"
-  Families = {"leaf","topd","func","method","typedecl","constdecl","vardecl","type","seqd"}
-  Budget = 3
-  LayoutMoves = 0
-  LayoutKinds = {}
-  Wrap = "decls"
-  CheckInjective = FALSE
+  Foci = {"rtdecl2", "rtgeneric1"}
+  InjFoci = {}
   TogoCopiesTypeParams = @@TP@@
   TogoHandlesIndexList = @@IL@@
   NilForNoNames = @@NN@@
